@@ -9,7 +9,7 @@ grids whose sides are multiples (2D), all states, all (stateful) block rules, al
 -/
 
 namespace Cpl.C10
-open Cpl
+open Cpl Cpl.Block
 
 variable {σ α : Type}
 
@@ -18,19 +18,21 @@ variable {σ α : Type}
 /-- **Odd steps**: consecutive blocks of `b` cells aligned with cell 0: block `k` is `[k·b, …, k·b + b - 1]`. -/
 theorem blockIndicesOdd_spec (N b : Nat) (hb : 1 ≤ b) (hdiv : N % b = 0) :
     blockIndicesOdd N b = (List.range (N / b)).map fun k => (List.range b).map fun j => k * b + j := by
-  sorry
+  exact blockIndicesOdd_eq N b hb hdiv
 
 /-- **Even steps**: the same blocks offset cyclically by one cell: block `k` is
     `[(k·b + j + N - 1) mod N | j < b]`, i.e. it starts at cell `N-1`. -/
 theorem blockIndicesEven_spec (N b : Nat) (hb : 1 ≤ b) (hdiv : N % b = 0) :
     blockIndicesEven N b
       = (List.range (N / b)).map fun k => (List.range b).map fun j => (k * b + j + N - 1) % N := by
-  sorry
+  exact blockIndicesEven_eq N b hb hdiv
 
 /-- **Every cell belongs to exactly one block per step** (both partitions are permutations of `0 .. N-1`). -/
 theorem blocks_partition (N b : Nat) (hb : 1 ≤ b) (hdiv : N % b = 0) :
     (blockIndicesOdd N b).flatten.Perm (List.range N) ∧ (blockIndicesEven N b).flatten.Perm (List.range N) := by
-  sorry
+  constructor
+  · rw [blockIndicesOdd_flatten N b hb hdiv]
+  · rw [blockIndicesEven_flatten N b hb hdiv]; exact rotated_perm N
 
 /-! ## 1D: one call per block, result written back to the same cells -/
 
@@ -47,6 +49,14 @@ def blockResults [Inhabited α] (rule : BlockRule1 σ α) (cells : List α) (t :
 /-- The partition used at step `t`. -/
 def stridesAt (N b t : Nat) : List (List Nat) := if t % 2 = 0 then blockIndicesEven N b else blockIndicesOdd N b
 
+/-- `blockResults` coincides with its twin `sweepResults` used in the helper lemmas. -/
+theorem blockResults_eq_sweepResults [Inhabited α] (rule : BlockRule1 σ α) (cells : List α) (t : Nat)
+    (strides : List (List Nat)) (s : σ) :
+    blockResults rule cells t strides s = sweepResults rule cells t strides s := by
+  induction strides generalizing s with
+  | nil => rfl
+  | cons st rest ih => simp only [blockResults, sweepResults, ih]
+
 /-- **One step**: the rule is called once per block of the step's partition (block order, state threaded),
     and each result is written back to the cells of its own block: cell `strides[k][j]` receives `results[k][j]`. -/
 theorem blockStep1_spec [Inhabited α] (rule : BlockRule1 σ α) (b : Nat) (cells : List α) (t : Nat) (s : σ)
@@ -58,14 +68,30 @@ theorem blockStep1_spec [Inhabited α] (rule : BlockRule1 σ α) (b : Nat) (cell
     (blockStep1 rule b cells t s).1.length = cells.length ∧
     ∀ k j, k < strides.length → j < b →
       (blockStep1 rule b cells t s).1[(strides[k]!)[j]!]! = (rs.1[k]!)[j]! := by
-  sorry
+  intro strides rs
+  have hst : strides = stepStrides cells.length b t := rfl
+  have hrs : rs = sweepResults rule cells t (stepStrides cells.length b t) s := by
+    show blockResults rule cells t (stridesAt cells.length b t) s = _
+    rw [blockResults_eq_sweepResults]; rfl
+  obtain ⟨h1, h2, h3, _⟩ := blockStep1_eq rule b cells t s hb hdiv (fun s' blk hl => hlen s' blk t hl)
+  rw [← hrs, ← hst] at h3
+  rw [← hrs] at h1
+  refine ⟨h1, h2, ?_⟩
+  intro k j hk hj
+  have hkl : (strides[k]).length = b := stepStrides_length cells.length b t hb hdiv _ (hst ▸ List.getElem_mem hk)
+  have hk' : k < rs.1.length := by rw [← h3]; simpa using hk
+  have hkk : rs.1[k] = (strides[k]).map fun i => (blockStep1 rule b cells t s).1[i]! := by
+    simp [← h3]
+  rw [getElem!_pos strides k hk, getElem!_pos rs.1 k hk', hkk,
+    getElem!_pos (strides[k]) j (by omega), getElem!_pos _ j (by simpa using (by omega : j < (strides[k]).length))]
+  simp
 
 /-- **Conservation**: a rule that only permutes the states inside a block conserves the global multiset. -/
 theorem block_conserves [Inhabited α] (rule : BlockRule1 σ α) (b : Nat) (cells : List α) (t : Nat) (s : σ)
     (hb : 1 ≤ b) (hdiv : cells.length % b = 0)
     (hperm : ∀ s' blk t', (rule s' blk t').1.Perm blk) :
     (blockStep1 rule b cells t s).1.Perm cells := by
-  sorry
+  exact blockStep1_perm rule b cells t s hb hdiv hperm
 
 /-- **Reversibility**: if `g` undoes `f` on blocks, one step with `g` on the same partition undoes one step with `f`. -/
 theorem block_reversible [Inhabited α] (f g : List α → Nat → List α) (b : Nat) (cells : List α) (t : Nat)
@@ -74,14 +100,18 @@ theorem block_reversible [Inhabited α] (f g : List α → Nat → List α) (b :
     (hgf : ∀ blk t', blk.length = b → g (f blk t') t' = blk) :
     (blockStep1 (fun (u : Unit) blk t' => (g blk t', u)) b
         (blockStep1 (fun (u : Unit) blk t' => (f blk t', u)) b cells t ()).1 t ()).1 = cells := by
-  sorry
+  exact blockStep1_reversible f g b cells t hb hdiv hf hgf
 
 /-- The result extends the history by `T-1` rows; a size not divisible by the block size is rejected. -/
 theorem evolveBlock_shape [Inhabited α] (hist : List (List α)) (init : List α) (hlast : hist.getLast? = some init)
     (b T : Nat) (hb : 1 ≤ b) (hT : 1 ≤ T) (rule : BlockRule1 σ α) (s : σ) :
     (init.length % b ≠ 0 → evolveBlock hist b T rule s = .error .Exception) ∧
     (init.length % b = 0 → ∃ rows s', evolveBlock hist b T rule s = .ok (hist ++ rows, s') ∧ rows.length = T - 1) := by
-  sorry
+  constructor
+  · intro hdiv
+    exact evolveBlock_reject hist init hlast b T hb hdiv rule s
+  · intro hdiv
+    exact ⟨_, _, evolveBlock_ok hist init hlast b T hb hT hdiv rule s, blockLoop1_length rule b _ _ _ _⟩
 
 /-! ## 2D -/
 
@@ -94,7 +124,7 @@ theorem blockIndices2_spec (R C b0 b1 : Nat) (h0 : 1 ≤ b0) (h1 : 1 ≤ b1) (hR
     blockIndices2Even R C b0 b1
       = (List.range (R / b0)).flatMap (fun i => (List.range (C / b1)).map fun j =>
           ((List.range b0).map (fun a => (i * b0 + a + 1) % R), (List.range b1).map (fun a => (j * b1 + a + 1) % C))) := by
-  sorry
+  exact ⟨blockIndices2Odd_eq R C b0 b1 h0 h1 hR hC, blockIndices2Even_eq R C b0 b1 h0 h1 hR hC⟩
 
 /-- The cells `(row, col)` of a list of index blocks. -/
 def cellsOf (blocks : List (List Nat × List Nat)) : List (Nat × Nat) :=
@@ -104,14 +134,14 @@ def cellsOf (blocks : List (List Nat × List Nat)) : List (Nat × Nat) :=
 theorem blocks2_partition (R C b0 b1 : Nat) (h0 : 1 ≤ b0) (h1 : 1 ≤ b1) (hR : R % b0 = 0) (hC : C % b1 = 0) :
     (cellsOf (blockIndices2Odd R C b0 b1)).Perm (cellsRowMajor R C) ∧
     (cellsOf (blockIndices2Even R C b0 b1)).Perm (cellsRowMajor R C) := by
-  sorry
+  exact blocks2_partition' R C b0 b1 h0 h1 hR hC
 
 /-- A grid size not divisible by the block size is rejected (2D); `T = 0` is rejected first. -/
 theorem evolve2dBlock_reject [Inhabited α] (hist : List (Grid α)) (init : Grid α) (hlast : hist.getLast? = some init)
     (b0 b1 T : Nat) (h0 : 1 ≤ b0) (h1 : 1 ≤ b1) (hT : 1 ≤ T) (rule : BlockRule2 σ α) (s : σ)
     (hnd : init.length % b0 ≠ 0 ∨ gridCols init % b1 ≠ 0) :
     evolve2dBlock hist b0 b1 T rule s = .error .Exception := by
-  sorry
+  exact evolve2dBlock_reject' hist init hlast b0 b1 T h0 h1 hT rule s hnd
 
 /-! ## The split law for block automata holds for odd `T1` only (the partition alternates with the
 call-local step number); a concrete counterexample for even `T1` is kept next to it. -/
@@ -124,7 +154,8 @@ theorem evolveBlock_split_odd [Inhabited α] (rule : BlockRule1 σ α)
     (hlen : ∀ s' blk t', blk.length = b → (rule s' blk t').1.length = b)
     (s s1 : σ) (mid : List (List α)) (hmid : evolveBlock hist b T1 rule s = .ok (mid, s1)) :
     evolveBlock mid b T2 rule s1 = evolveBlock hist b (T1 + T2 - 1) rule s := by
-  sorry
+  have _ := hlen  -- not needed: `List.set` preserves the length whatever the rule returns
+  exact evolveBlock_split_odd' rule htf hist init hlast b T1 T2 hb hdiv hodd hT2 s s1 mid hmid
 
 /-- Even `T1`: the law fails (block size 2, the swap rule, `T1 = 2`, `T2 = 2`): continuing restarts on the
     odd partition, the evolution at once uses the even partition for its second step. -/
